@@ -530,7 +530,8 @@ class FullLib(Lib):
         if isinstance(p, VPath) and p.anchor == A_METADATA and [x[0] for x in p.parts] == ["shard"]:
             self.maybe_fault(it, "listdir", p.parts[0][1])
             it.ctx.event("listdir", key=p.parts[0][1])
-            return VSymSeq("listdir", d=p.parts[0][1], fs=it.ctx.st.fs)
+            return VSymSeq("listdir", d=p.parts[0][1], fs=it.ctx.st.fs,
+                           held=list(it.ctx.st.held))
         raise Undecided(f"listdir({p})")
 
     def c_os_stat(self, it, p):
@@ -1170,7 +1171,8 @@ class LoopLib(FullLib):
                     [p[0] for p in base.parts] == ["shard"]
                     and z3.is_true(z3.simplify(base.parts[0][1] == src.info["d"]))):
                 raise Undecided("listing joined with another directory")
-            return VSymSeq("dirfiles", d=src.info["d"], fs=src.info["fs"], base=base)
+            return VSymSeq("dirfiles", d=src.info["d"], fs=src.info["fs"], base=base,
+                           held=src.info.get("held", []))
         return None
 
 
@@ -1314,11 +1316,29 @@ class DirLoopLib(LoopLib):
             ctx.assume(T.ishex(n))
             own0 = dict(ctx.st.own)
             it.assign(s.target, VPath(A_METADATA, (("shard", d), ("str", n))), env)
+            ev0 = len(ctx.st.events)
             try:
                 it.exec_block(s.body, env)
                 raised = None
             except PyRaise as pr:
                 raised = pr.exc.cls
+            # check-then-act: the entry's existence comes from the listing; the rename that
+            # relies on it must see it under the lock that guards the entry
+            listed_under = {cl for cl, _ in seq.info.get("held", [])}
+            for i, ev in enumerate(ctx.st.events[ev0:]):
+                if ev["kind"] == "move" and z3.is_true(z3.simplify(ev["src"] == e)):
+                    guards = {cl for cl, _ in ev["held"]}
+                    probed = any(x["kind"] == "probe" and z3.is_true(z3.simplify(x["loc"] == e))
+                                 and {cl for cl, _ in x["held"]} >= guards
+                                 for x in ctx.st.events[ev0:ev0 + i])
+                    cname = f"{who}/C-check-then-act/entry-existence-read-under-its-document-lock"
+                    if "doc" in guards and "doc" not in listed_under and not probed:
+                        ctx.fail(cname,
+                                 "the directory is listed before the document lock is taken and the "
+                                 "rename under the lock does not re-check that the file still exists",
+                                 props=("C12",))
+                    else:
+                        ctx.oblige(cname, z3.BoolVal(True), props=("C12",))
             if raised is not None and ctx.__dict__.get("fault_mode") is not None \
                     and ctx.fault_mode["injected"]:
                 raise LemmaDone()      # an injected failure: handled on the main path below
